@@ -156,11 +156,6 @@ theorem revert_storage_eq (blk : BMap ARevert) :
   unfold revertBlockToPlain
   exact filterMap_ite _ _ _
 
-/-- no wiping revert of the block lists a `Destroyed` slot (outside this region the literal reading of
-`RevertToSlot::Destroyed` as zero is wrong: finding F1) -/
-def literalOk (blk : BMap ARevert) : Bool :=
-  blk.all (fun e => !e.2.wipe || e.2.storage.all (fun s => s.2 != RevSlot.destroyed))
-
 theorem revSlotV_literal (st : BMap RevSlot) (wipe : Bool) (Ps Rs : Nat → Nat) (k : Nat)
     (h : (!wipe || st.all (fun s => s.2 != RevSlot.destroyed)) = true) :
     revSlotV false st wipe Ps Rs k = revSlotV true st wipe Ps Rs k := by
